@@ -228,7 +228,7 @@ def run_tf(cyc, f, dt, start_k, length, delays_rel, H, multi_freq):
     return out, analytic, t0, n, start
 
 
-cfgs = [(5, 5e6, 1 / 25e6), (3, 2e6, 1e-7), (5, 5e6, 1 / 40e6), (2, 1.0, 0.125)]
+cfgs = [(5, 5e6, 1 / 25e6), (3, 2e6, 1e-7), (5, 5e6, 1 / 40e6), (2, 1.0, 0.125), (5, 2.0 ** 21, 2.0 ** -24)]
 if not Q:
     cfgs += [(4, 3e6, 1 / 33e6), (5, 1e6, 1e-7), (7, 5e6, 1 / 50e6)]
 for (cyc, f, dt) in cfgs:
@@ -236,7 +236,7 @@ for (cyc, f, dt) in cfgs:
     n = len(tt_)
     length = 3 * n + 17
     kmin, kmax = t0_, t0_ + length - n            # q - t0 >= 0 and q - t0 + n <= length (q = nearest sample)
-    for start_k in (0, 5, -3):
+    for start_k in (0, 5, -3, 26.25, -0.4):
         ks = np.arange(kmin, kmax + 1)
         if Q:
             ks = ks[:: max(1, len(ks) // 120)]
@@ -281,23 +281,57 @@ for (cyc, f, dt) in cfgs:
         # fractional delays: envelope peak within half a sample
         nfr = 60 if Q else 600
         d = rng.uniform(kmin * dt, (kmax - 0.5) * dt, size=nfr)
+        kinds = ["fractional"] * nfr
+        # exact half-sample ties (k + 1/2) * dt, k even and odd, and quarter-sample delays
+        ties = [(k + 0.5) * dt for k in range(kmin, min(kmax - 1, kmin + 24))] + \
+               [(k + 0.25) * dt for k in range(kmin, min(kmax - 1, kmin + 6))]
+        d = np.concatenate([d, np.array(ties)])
+        kinds += ["half-sample tie"] * (len(ties) - min(6, max(0, kmax - 1 - kmin))) + ["quarter"] * min(6, max(0, kmax - 1 - kmin))
+        kinds = kinds[: len(d)] + ["quarter"] * (len(d) - len(kinds))
+        nfr = len(d)
         H = (rng.standard_normal(nfr) + 1j * rng.standard_normal(nfr))[np.newaxis, :]
         out, analytic, t0, n, start = run_tf(cyc, f, dt, start_k, length, d[np.newaxis, :], H, bool(rng.integers(0, 2)))
+        tb_f_ = np.fft.rfft(model.make_toneburst2(cyc, f, dt, num_before=1, num_after=1)[1])
+        freq_ = np.fft.rfftfreq(n, dt)
         for idx in range(nfr):
             evaluations += 1
             n_frac += 1
             row = out[idx]
             peak = int(np.argmax(np.abs(row)))
-            pos = d[idx] / dt
+            rel = (d[idx] + start) - start            # what the implementation computes
+            pos = rel / dt
             nz = np.nonzero(row)[0]
-            rel = (d[idx] + start) - start
             ds_cases.append((float(rel), dt, int(nz[0]) + t0 if len(nz) else None,
-                             {"variant": "fractional", "dt": dt, "start_k": start_k}))
-            chk.count(delay_kind="fractional")
+                             {"variant": kinds[idx], "dt": dt, "start_k": start_k}))
+            chk.count(delay_kind=kinds[idx])
+            nontrivial.add(("tf-frac", cyc, f, dt, start_k, float(d[idx])))
             if abs(peak - pos) > 0.5 + 1e-6:
                 chk.violation("tf:fractional", "envelope peak is more than half a sample away from the delay",
                               {"num_cycles": cyc, "centre_freq": f, "dt": dt, "start": start,
                                "delay": float(d[idx] + start), "delay_in_samples": float(pos), "peak_index": peak})
+                continue
+            # waveform: the echo must be the analytic toneburst delayed by `rel`, i.e. for a
+            # consistent split rel = q*dt + rem: the spectrum shifted by rem (Model/Dft.v),
+            # transformed back and placed at q (Model/Signal.v place).  q = nearest sample; on an
+            # exact half-sample tie either neighbour is a consistent split.
+            cands = {int(np.floor(pos + 0.5))}
+            if abs((pos - np.floor(pos)) - 0.5) < 1e-9:
+                cands |= {int(np.floor(pos)), int(np.floor(pos)) + 1}
+            okw = False
+            for q in cands:
+                rem = rel - q * dt
+                resp = arim.signal.rfft_to_hilbert(H[0, idx] * tb_f_ * np.exp(-2j * np.pi * freq_ * rem), n)
+                want = np.zeros(length, complex)
+                if 0 <= q - t0 and q - t0 + n <= length:
+                    want[q - t0: q - t0 + n] = resp
+                    if np.allclose(row, want, rtol=0, atol=1e-9 * abs(H[0, idx])):
+                        okw = True
+            if not okw:
+                chk.violation("tf:waveform", "echo is not the analytic toneburst delayed by the requested delay "
+                              "(whole-sample placement and spectral remainder are inconsistent)",
+                              {"num_cycles": cyc, "centre_freq": f, "dt": dt, "start": start, "kind": kinds[idx],
+                               "delay": float(d[idx] + start), "delay_in_samples": float(pos), "peak_index": peak,
+                               "candidates_q": sorted(cands)})
     # several scatterers: linear superposition on aligned delays
     for numscat in (2, 3):
         numtt = 4
